@@ -94,6 +94,18 @@ DiscoverySet ==
                  : n \in {4, 5, 6, 7, 9, 12, 17}, i \in {1, 2} }
   IN good \cup exact \cup bad \cup twice \cup full \cup {sc \in refused : sc.info.bytes >= 16 * sc.info.chunks}
      \cup {sc \in again : sc.info.bytes >= 16 * sc.info.chunks}
+\* a chunk request after the first that is never answered (the context expires while it is being retried): an error -
+\* what was gathered up to there is not the BMC's list, even where it happens to end on a record boundary
+Unanswered ==
+  { LET recs == Rep(Pair16, m)
+        data == CS!DataOf(recs)
+        lost == [rule |-> "unanswered", when |-> << IsCipherReq, Eq(Slice(Req, 24, 25), B(<<128 + i>>)) >>, datagrams |-> <<>>, cancel |-> TRUE]
+    IN [id |-> "una-" \o ToString(m) \o "-" \o ToString(i),
+        info |-> [family |-> "discovery-unanswered", insess |-> FALSE, bytes |-> Len(data), chunks |-> i, tail |-> "unanswered"],
+        steps |-> << [k |-> "rules", rules |-> <<lost>> \o CipherRules(data)],
+                     [k |-> "call", api |-> "RetrieveSupportedCipherSuites", label |-> "discover",
+                      exp |-> [prop |-> "C13", outcome |-> "error", value |-> <<>>, maxreqs |-> i + 12]] >>]
+    : m \in {1, 2, 4}, i \in 1..4 }
 \* a BMC that answers every request with a full chunk of well-formed records: the enumeration must still end (C05)
 EndlessRule == [rule |-> "endless", when |-> << IsCipherReq >>,
                 datagrams |-> << Dg(NullWrapper(0, MsgRsp(7, 84, 0, <<14>> \o CS!DataOf(Pair16))), [kind |-> "chunk", i |-> 0]) >>]
@@ -219,7 +231,7 @@ ReuseSet ==
   \cup { Reprop(SelectionTwice("rst-" \o ToString(p) \o "-" \o ToString(a1) \o "-" \o ToString(a2), p, a1, p, a2), "C17")
             : p \in {<<>>, <<SelU[1], SelU[2]>>, <<SelU[3], SelU[1], SelU[2]>>}, a1 \in {{SelU[2]}, {SelU[2], SelU[4]}, U}, a2 \in {U, {SelU[1], SelU[2]}, {SelU[1]}} }
 
-Scripts == CASE Family = "discovery13" -> { Reprop(sc, "C13") : sc \in {d \in DiscoverySet : d.info.tail # "none"} } [] Family = "discovery" -> DiscoverySet [] Family = "selection" -> SelectionSet [] Family = "endless" -> EndlessSet [] Family = "reuse" -> ReuseSet
+Scripts == CASE Family = "discovery13" -> { Reprop(sc, "C13") : sc \in {d \in DiscoverySet : d.info.tail # "none"} } \cup {u \in Unanswered : u.info.chunks <= u.info.bytes \div 16} [] Family = "discovery" -> DiscoverySet [] Family = "selection" -> SelectionSet [] Family = "endless" -> EndlessSet [] Family = "reuse" -> ReuseSet
 Header == [header |-> TRUE, family |-> Family]
 ASSUME PrintT(<<"HEADER", ToJson(Header)>>)
 ASSUME \A s \in Scripts : PrintT(<<"SCRIPT", ToJson(s)>>)
